@@ -381,7 +381,8 @@ def run(ctx):
             op, pre, what = describe_trace(t, upto - 1) if t else ("?", "", "")
             ctx.violation(f"trace-invariant:{v.invariant}:{mode}:{op}", f"{v.invariant} violated ({mode}) on a recorded run at: {what}; before: {pre}",
                           {"case": metas[i] if i is not None else None, "trace": t, "state": str(v.inv_state)[:1500]})
-        for idx, upto in sorted(v.rejected.items()):
+        # (TLC stops at the first violated invariant: the runs it had not finished are then not rejections)
+        for idx, upto in sorted(v.rejected.items() if not v.invariant else []):
             bad.add(idx)
             op, pre, what = describe_trace(traces[idx], upto)
             field = ""
@@ -395,7 +396,7 @@ def run(ctx):
         ctx.violation(f"{KF}:trace", f"recorded run explained only by the as-found rewind: {brief(t)}; stream datums "
                       f"{[(d['d'], d['i0'], d['i1'], d['s0'], d['s1']) for e in t for d in e['docs'] if d['k'] == 'datum']}, num_events {t[-1]['ne']}",
                       {"case": metas[idx], "trace": t})
-    ctx.traces(len(traces) - len(bad))
+    ctx.traces(0 if (vc.invariant or vm.invariant) else len(traces) - len(bad))
     ctx.assumptions += [
         "detectors follow the documented collect_asset_docs(index) behaviour (stream_resource once, one stream_datum [last, index) when there are "
         "new frames, none otherwise) or ignore the index altogether (greedy); empty stream datums are not produced",
